@@ -14,12 +14,13 @@ IMPORTS = {
     "htemplate": ('htemplate "html/template"', "htemplate.New"),
     "context": ('"context"', "context.Background"),
     "io": ('"io"', "io.EOF"),
+    "unsafe": ('"unsafe"', "unsafe.Sizeof(0)"),
 }
 
 
 def gen_type(rnd, depth, comparable=False):
     """random Go type expression (as written in the user's source) from the universe of C04, without variadic and generic"""
-    leaf = ["int", "string", "bool", "float64", "uint8", "int32", "Local1", "Local2", "time.Duration", "netip.Addr", "*Local1"]
+    leaf = ["int", "string", "bool", "float64", "uint8", "int32", "Local1", "Local2", "time.Duration", "netip.Addr", "*Local1", "byte", "rune", "any", "error", "unsafe.Pointer"]
     if comparable:
         return rnd.choice(["int", "string", "Local2", "netip.Addr", "time.Duration", "*Local1", "[2]int"])
     if depth <= 0:
